@@ -177,7 +177,35 @@ def r2(I):
     I.check('nothing_else_reaches_the_trader', smt.Eq(b.get('trader', 'uB'), pre.get('trader', 'uB')))
 
 
-FEE_CONFIGS = [(10 ** 15, 2 * 10 ** 15, 0), (10 ** 16, 2 * 10 ** 16, 10 ** 16), (0, 3 * 10 ** 15, 0)]
+FEE_CONFIGS = [(10 ** 15, 2 * 10 ** 15, 0, ()), (10 ** 16, 2 * 10 ** 16, 10 ** 16, ()), (0, 3 * 10 ** 15, 0, ()),
+               (10 ** 15, 3 * 10 ** 15, 10 ** 15, (5 * 10 ** 15, 15 * 10 ** 15)), (0, 2 * 10 ** 15, 0, (10 ** 15,))]
+
+
+def _replay_k1(zero_fees):
+    """native: ReverseSimulation(ask) -> q, then Simulation(q + 1); confirmed when the real contract returns less than ask"""
+    def rb(label, m):
+        from ..replayer import run_scenario
+        cfg = (0, 0, 0, ()) if zero_fees else FEE_CONFIGS[m.get('_choices', {}).get('feecfg', 0)]
+        fees = (cfg[0], cfg[1], cfg[2], list(cfg[3]))
+        steps = [{'op': 'set_pool', 'pool': pool_json('p1', ['uA', 'uB'], [6, 6], [m['reserve_x'], m['reserve_y']], 'constant_product', fees)},
+                 {'op': 'query', 'contract': 'pool_manager', 'msg': {'reverse_simulation': {'ask_asset': coin_j('uB', m['ask_amount']), 'offer_asset_denom': 'uA',
+                                                                                            'pool_identifier': 'p1'}}}]
+        out = run_scenario({'setup': {}, 'steps': steps}).get('results')
+        if not out or 'ok' not in out[-1]:
+            return None
+        q = int(out[-1]['ok']['offer_amount'])
+        steps.append({'op': 'query', 'contract': 'pool_manager', 'msg': {'simulation': {'offer_asset': coin_j('uA', q + 1), 'ask_asset_denom': 'uB', 'pool_identifier': 'p1'}}})
+        sc = {'setup': {}, 'steps': steps}
+        out = run_scenario(sc).get('results')
+        if not out or 'ok' not in out[-1]:
+            return None
+        got = int(out[-1]['ok']['return_amount'])
+        if got < m['ask_amount']:
+            why = 'ReverseSimulation(ask=%d) quotes %d; Simulation(offer=%d) returns %d < ask (pool %d/%d, fees %s)' % (
+                m['ask_amount'], q, q + 1, got, m['reserve_x'], m['reserve_y'], fees)
+            return sc, (lambda o, w=why: (True, w))
+        return None
+    return rb
 
 
 def _ob_k1(zero_fees, reduced):
@@ -227,5 +255,6 @@ for _z, _red, _tier in ((True, False, 'quick'), (False, True, 'quick')):
                kind='K', tier=_tier,
                statement='constant product: if ReverseSimulation(ask) returns offer q and the forward swap of q+1 is accepted, it returns at least ask',
                bounds='reserves/ask in [1, %s), %s; paths where the forward swap is refused are outside the claim' % (
-                   '2^128' if _red else '2^128', 'all fees zero' if _z else ('three fixed fee configurations (0.1/0.2/0, 1/2/1, 0/0.3/0 percent)' if _red else 'real is_valid fees with total > 0')),
-               covers=['ok'], opts={'check_timeout_ms': 120000})(_ob_k1(_z, _red))
+                   '2^128' if _red else '2^128', 'all fees zero' if _z else ('five fixed fee configurations (protocol/swap/burn 0.1/0.2/0, 1/2/1, 0/0.3/0 percent; 0.1/0.3/0.1 + extra fees 0.5 and 1.5; '
+                                                                           '0/0.2/0 + one extra fee 0.1)' if _red else 'real is_valid fees with total > 0')),
+               covers=['ok'], opts={'check_timeout_ms': 120000}, replay=_replay_k1(_z))(_ob_k1(_z, _red))
